@@ -211,7 +211,7 @@ func destinations() []reflect.Type {
 	}
 	out = append(out, reflect.TypeOf((*interface{})(nil)).Elem())
 	// interface types with methods: the destination holds a method table next to the value
-	out = append(out, reflect.TypeOf((*error)(nil)).Elem(), reflect.TypeOf((*fmt.Stringer)(nil)).Elem())
+	out = append(out, reflect.TypeOf((*error)(nil)).Elem(), reflect.TypeOf((*fmt.Stringer)(nil)).Elem(), reflect.TypeOf((*error)(nil)), reflect.TypeOf((**fmt.Stringer)(nil)).Elem())
 	return out
 }
 
